@@ -138,7 +138,12 @@ static Result check_planar(const J &c)
       const bool ref_finite = foot_inside && ref_d.segment >= 0;
       if (ref_finite && (ref_d.margin < 1e-6 * total + 1e-3 || ref_d.tie_gap < 1.0)) { r.classes.push_back("segment-end/tie(skipped)"); continue; }
       if (!ref_finite && ref_d.tie_gap < 1.0) { r.classes.push_back("segment-end/tie(skipped)"); continue; }
-      const double tol = 1e-3 + 1e-9 * (std::fabs(X) + std::fabs(Y) + total);
+      // The closest trench point comes from a Newton iteration that stops at a parameter update below 1e-4 (bezier_curve.cc), which
+      // leaves the foot up to ~2e-7 of the trench length away from the true foot *along* the trench. For a straight trench that only
+      // matters through the horizontal distance sqrt(x^2 + delta^2) of a point (almost) vertically below the trench line.
+      const double foot_delta = 2e-7 * len;
+      const double foot_noise = std::min(foot_delta, foot_delta * foot_delta / (2 * std::max(std::fabs(xoff), 1e-300)));
+      const double tol = 1e-3 + 1e-9 * (std::fabs(X) + std::fabs(Y) + total) + foot_noise;
       // the foot sits close to the first trench coordinate: listed weakness of the t^3 parametrisation of 2-point trenches
       const bool near_first = sfoot < 0.01 * len;
       if (ref_finite)
@@ -177,10 +182,162 @@ static Result check_planar(const J &c)
   return r;
 }
 
+// ---------------------------------------------------------------- spherical: trench along a meridian or along the equator
+// The construction is the same planar one, drawn in the vertical plane through a trench point perpendicular to the trench (a plane
+// through the sphere's centre). On a sphere "vertical", "horizontal" and "depth" change along the slab, so the library's numbers can
+// only agree with the flat construction up to the curvature of the sphere over the extent d of the construction: the allowance is
+// 4 d^2 / R (d = |x| + |y| of the point + the surface length up to its foot), i.e. a few per cent of d for the slabs generated
+// here, while a wrong side, a wrong axis, degrees taken for radians or a wrong radius are wrong by d itself.
+static J gen_sph(Chooser &ch)
+{
+  J c = J::obj();
+  const bool fault = ch.chance(35);
+  c["type"] = fault ? "fault" : "subducting plate";
+  c["R"] = ch.pick<double>({6371e3, 6371e3, 3390e3, 1737e3});
+  c["dm"] = ch.pick<std::string>({"starting point", "begin segment", "begin at end segment"});
+  const bool meridian = ch.flip();
+  c["meridian"] = meridian;
+  c["fixed"] = meridian ? ch.lattice(-170, 170, 1) : 0.0;                    // the trench's longitude (meridian) or latitude 0 (equator)
+  const double a = meridian ? ch.lattice(-60, 40, 1) : ch.lattice(-170, 150, 1); // where it starts along the other coordinate
+  c["from"] = a; c["to"] = a + ch.lattice(5, 20, 1);
+  c["reversed"] = ch.flip();                                                  // coordinates listed the other way round
+  c["side"] = ch.flip() ? 1 : -1;
+  c["dmin"] = ch.chance(60) ? 0.0 : ch.lattice(5e3, 50e3, 5e3);
+  J segs = J::arr();
+  const int ns = static_cast<int>(ch.range(1, 3));
+  double a_prev = ch.lattice(10, 170, 5);
+  for (int i = 0; i < ns; ++i)
+    {
+      J s = J::obj();
+      s["L"] = ch.lattice(20e3, 100e3, 5e3);
+      double a0 = a_prev;
+      if (i > 0 && ch.chance(30)) a0 = ch.lattice(10, 170, 5);
+      const double a1 = ch.chance(45) ? a0 : ch.lattice(10, 170, 5);
+      s["a0"] = a0; s["a1"] = a1;
+      a_prev = a1;
+      const double t0 = ch.lattice(10e3, 60e3, 5e3);
+      s["t0"] = t0; s["t1"] = ch.chance(40) ? ch.lattice(10e3, 60e3, 5e3) : t0;
+      s["tt0"] = 0.0; s["tt1"] = 0.0;
+      segs.push(s);
+    }
+  c["segments"] = segs;
+  J pts = J::arr();
+  const int np = static_cast<int>(ch.range(8, 30));
+  for (int i = 0; i < np; ++i)
+    {
+      J p = J::obj();
+      p["s"] = ch.real(0.1, 0.9);
+      p["l"] = ch.chance(12) ? ch.real(1.0, 1.2) : ch.real(0.0, 1.0);
+      p["n"] = ch.chance(12) ? ch.real(-150e3, 150e3) : ch.real(-40e3, 80e3);
+      pts.push(p);
+    }
+  c["points"] = pts;
+  return c;
+}
+
+static Result check_sph(const J &c)
+{
+  Result r;
+  const bool fault = c.at("type").str() == "fault";
+  const double R = c.at("R").num();
+  const bool meridian = c.at("meridian").boolean();
+  const double fixed = c.at("fixed").num(), from = c.at("from").num(), to = c.at("to").num(), side = c.at("side").num(), dmin = c.at("dmin").num();
+  std::vector<ref::Seg> segs;
+  double total = 0, maxthick = 0;
+  J jsegs = J::arr();
+  for (const auto &s : c.at("segments").a)
+    {
+      segs.push_back({s.at("L").num(), s.at("a0").num() * DEG, s.at("a1").num() * DEG});
+      total += s.at("L").num();
+      maxthick = std::max(maxthick, std::max(s.at("t0").num(), s.at("t1").num()));
+      J js = J::obj();
+      js["length"] = s.at("L");
+      js["thickness"] = J::arr({s.at("t0"), s.at("t1")});
+      js["angle"] = J::arr({s.at("a0"), s.at("a1")});
+      jsegs.push(js);
+    }
+  J root = J::obj();
+  root["version"] = "1.1";
+  J cs = J::obj();
+  cs["model"] = "spherical"; cs["depth method"] = c.at("dm").str(); cs["radius"] = R;
+  root["coordinate system"] = cs;
+  J feat = J::obj();
+  feat["model"] = c.at("type").str();
+  feat["name"] = "line";
+  J c0 = meridian ? jp(fixed, from) : jp(from, fixed), c1 = meridian ? jp(fixed, to) : jp(to, fixed);
+  feat["coordinates"] = c.at("reversed").boolean() ? J::arr({c1, c0}) : J::arr({c0, c1});
+  feat["dip point"] = meridian ? jp(fixed + side * 20, 0.5 * (from + to)) : jp(0.5 * (from + to), side * 20);
+  if (dmin != 0) feat["min depth"] = dmin;
+  feat["segments"] = jsegs;
+  root["features"] = J::arr({feat});
+  auto W = make_world(root.dump());
+  r.classes.push_back(std::string(meridian ? "meridian" : "equator") + " / " + c.at("dm").str());
+  r.classes.push_back(fault ? "fault" : "slab");
+  for (const auto &p : c.at("points").a)
+    {
+      const double u = from + p.at("s").num() * (to - from);
+      const double lon = (meridian ? fixed : u) * DEG, lat = (meridian ? u : fixed) * DEG;
+      const double rh[3] = {std::cos(lat) * std::cos(lon), std::cos(lat) * std::sin(lon), std::sin(lat)};
+      const double east[3] = {-std::sin(lon), std::cos(lon), 0};
+      const double north[3] = {-std::sin(lat) * std::cos(lon), -std::sin(lat) * std::sin(lon), std::cos(lat)};
+      const double *h = meridian ? east : north;
+      double qx, qy;
+      ref::planar_slab_point(segs, p.at("l").num() * total, p.at("n").num(), qx, qy);
+      std::array<double, 3> P;
+      for (size_t k = 0; k < 3; ++k) P[k] = (R - dmin + qy) * rh[k] + side * qx * h[k];
+      const double rad = std::sqrt(P[0] * P[0] + P[1] * P[1] + P[2] * P[2]);
+      const double depth = R - rad;
+      if (depth < 0 || depth > 0.5 * R) continue;
+      const ref::PlaneDist ref_d = ref::planar_slab(segs, qx, qy);
+      if (ref_d.segment < 0) continue;
+      const double d = std::fabs(qx) + std::fabs(qy) + dmin + std::fabs(ref_d.along);
+      const double tol = 4 * d * d / R + 1e-3;
+      if (ref_d.margin < tol || ref_d.tie_gap < 2 * tol) { r.classes.push_back("segment-end/tie(skipped)"); continue; }
+      const WB::Objects::PlaneDistances got = W->distance_to_plane(P, depth, "line");
+      r.inner++;
+      if (std::fabs(ref_d.from) < 3 * maxthick) { r.nontrivial = true; r.inner_nt++; }
+      const double gf = got.get_distance_from_surface(), ga = got.get_distance_along_surface();
+      const std::string where = " at (lon,lat,depth) = (" + fmt(std::atan2(P[1], P[0]) / DEG) + "," + fmt(std::asin(P[2] / rad) / DEG) + "," + fmt(depth) + "), plane coordinates x=" + fmt(qx) + " y=" + fmt(qy) + ", allowance " + fmt(tol);
+      // conditioning: near the centre of curvature of an arc the along-surface distance of a point is arbitrarily sensitive to its
+      // position, so the allowance is applied to the *position*: the reported pair has to lie within the range the construction
+      // gives for the points within `tol` of the point (plus tol itself)
+      double f_lo = ref_d.from, f_hi = ref_d.from, a_lo = ref_d.along, a_hi = ref_d.along;
+      bool stable = true;
+      for (int k = 0; k < 16 && stable; ++k)
+        {
+          const double ang = 2 * PI * k / 16.0;
+          const ref::PlaneDist q = ref::planar_slab(segs, qx + tol * std::cos(ang), qy + tol * std::sin(ang));
+          if (q.segment != ref_d.segment) { stable = false; break; }
+          f_lo = std::min(f_lo, q.from); f_hi = std::max(f_hi, q.from); a_lo = std::min(a_lo, q.along); a_hi = std::max(a_hi, q.along);
+        }
+      if (!stable) { r.classes.push_back("segment-end/tie(skipped)"); continue; }
+      if (a_hi - a_lo > 0.25 * total) { r.classes.push_back("ill-conditioned: near a centre of curvature(skipped)"); continue; }
+      if (!std::isfinite(gf) || !std::isfinite(ga))
+        return Result::fail("sph-distance-infinite", c.at("type").str() + ": planar construction gives distance " + fmt(ref_d.from) + " along " + fmt(ref_d.along) + " but distance_to_plane reports (" + fmt(gf) + "," + fmt(ga) + ")" + where);
+      const bool from_bad = gf < f_lo - tol || gf > f_hi + tol, along_bad = ga < a_lo - tol || ga > a_hi + tol;
+      if (from_bad || along_bad)
+        return Result::fail(from_bad ? "sph-distance-from-surface" : "sph-distance-along-surface", c.at("type").str() + ": planar construction gives distance " + fmt(ref_d.from) + " along " + fmt(ref_d.along) + " (segment " + std::to_string(ref_d.segment) + ") but distance_to_plane reports (" + fmt(gf) + "," + fmt(ga) + ")" + where);
+      r.classes.push_back(std::fabs(gf - ref_d.from) > 0.25 * tol || std::fabs(ga - ref_d.along) > 0.25 * tol ? "uses > 25% of the curvature allowance" : "within 25% of the allowance");
+      // membership through the tag, away from every bound by the allowance
+      const J &sg = c.at("segments")[static_cast<size_t>(ref_d.segment)];
+      const double thick = sg.at("t0").num() + ref_d.frac * (sg.at("t1").num() - sg.at("t0").num());
+      const double lo = fault ? -0.5 * thick : 0.0, hi = fault ? 0.5 * thick : thick;
+      const bool want = ref_d.from >= lo && ref_d.from <= hi && ref_d.along >= 0 && ref_d.along <= total && depth >= dmin;
+      const bool near_bound = std::fabs(ref_d.from - lo) < tol || std::fabs(ref_d.from - hi) < tol || std::fabs(ref_d.along) < tol || std::fabs(ref_d.along - total) < tol || std::fabs(depth - dmin) < tol || std::fabs(qy) < tol;
+      if (near_bound) continue;
+      const double tag = W->properties(P, depth, {{{4, 0, 0}}})[0];
+      if (want) r.classes.push_back("inside");
+      if (want != (tag != -1))
+        return Result::fail(want ? "sph-membership-false-negative" : "sph-membership-false-positive", c.at("type").str() + ": the membership definition says " + (want ? "inside" : "outside") + " (distance " + fmt(ref_d.from) + " in [" + fmt(lo) + "," + fmt(hi) + "], along " + fmt(ref_d.along) + " of " + fmt(total) + ", min depth " + fmt(dmin) + ") but the tag is " + fmt(tag) + where);
+    }
+  return r;
+}
+
 int main(int argc, char **argv)
 {
   return run_main("C06", argc, argv,
   {
     {"planar_cartesian", "slabs and faults on a straight cartesian trench of any position/azimuth/length (30% with collinear intermediate coordinates), either dip side, 1..4 segments (straight or arcs, dips 5..175 deg, 30% kinks), thickness and top-truncation pairs, min depth 0..300 km; 8..40 points per case generated in slab coordinates (on / just off / far from the surface, beyond the tip, beyond the trench ends) plus uniform ones; oracle: planar construction for both distances of distance_to_plane (1 mm + 1e-9 scale) and for membership via the tag. Non-trivial: finite reference distance within 3 thicknesses", 120, gen_planar, check_planar, 100, true, true},
+    {"planar_spherical", "slabs and faults on a spherical trench along a meridian or along the equator (radius Earth/Mars/Moon, all three depth methods, either dip side, coordinates in either order), 1..3 segments of 20..100 km (straight or arcs), min depth 0..50 km; 8..30 points per case generated in the vertical plane through a trench point perpendicular to the trench; oracle: planar construction for both distances of distance_to_plane and for membership via the tag, with the radius-scaled allowance 4 d^2/R (d = extent of the construction up to the point). Non-trivial: reference distance within 3 thicknesses", 120, gen_sph, check_sph},
   });
 }
